@@ -125,6 +125,9 @@ def finding_key(al, conc, clause):
         after = "second-secret"
     toks = [t.get("lit", "") for t in al["toks"]]
     opt = "sha512" if "sha512" in toks else ("level" if any("level" in t for t in toks) else "-")
+    if len(conc["secrets"]) > 1:
+        # two-secret forms: which optional words surround the second secret
+        opt = "+".join(t.replace(" ", "") for t in toks if t in ("aes", "aes 128", "3des", "des", "something")) or "-"
     typed = "typed" if any(t in ("0", "5", "6", "7", "8", "ENC") for t in toks) else "untyped"
     first = toks[0].split(" ")[0] if toks and toks[0] else (toks[1].split(" ")[0] if len(toks) > 1 else "")
     if al["form"] == "H1":
